@@ -1132,6 +1132,14 @@ def _cli_merge(ctx, rng, wd, t, out):
                            [R.node(f"s{i}", a - lo, len(d), 1, None, d) for i, (a, d) in enumerate(segs)])
         tree["children"].append(child)
         cursor = max(cursor, child["offset"] + R.length(child))
+    if len(cfg["regions"]) > 1 and all("offset" in next(iter(c.values())) for c in cfg["regions"]) and rng.random() < 0.6:
+        # every offset is explicit: the ORDER of the entries means nothing (a region configured at 0 may stand last)
+        rng.shuffle(cfg["regions"])
+        ctx.count("merge_regions_listed_in_another_order")
+        if "block" in kinds:
+            for ch in tree["children"]:
+                if len(ch["children"]) > 1:
+                    ch["pattern"] = "rand"  # fill inside a sparse file that may now follow a binary_block: not judged
     if use_size:
         need = R.length(tree)
         size = need + core.pick(rng, [0, 0, 1, 16, 0x100]) if not hostile else max(1, need - core.pick(rng, [0, 1, 16]))
